@@ -10,10 +10,43 @@ import copy
 
 import numpy as np
 
+from harness import c16_r7_fixtures as r7
 from harness import store_fixtures as sf
 from harness.store_fixtures import UNIVERSE
 
-MODEL_MODULES = ['SkyllhModel.Model.Store', 'SkyllhModel.Model.StoreIO']
+MODEL_MODULES = ['SkyllhModel.Model.Store', 'SkyllhModel.Model.StoreIO', 'SkyllhModel.Model.StoreR7']
+
+S = 'skyllh/core/storage.py::DataFieldRecordArray.'
+# Python callable -> the executable Lean definitions mirroring it (compared with it on every run)
+MODEL_MAP = {
+    S + '__init__': ['Store.ctorLoop', 'Store.ctorField', 'Store.ctorLen', 'Store.ctorKept', 'Store.ctorConv', 'Store.ctorUpd',
+                     'Store.ctorDict', 'Store.ctorTable', 'Store.stepCtorH', 'Store.stepCtorT', 'Store.sameKind', 'Store.tableOp'],
+    'skyllh/core/storage.py::DictDataTableAccessor.get_length': ['Store.dictLength'],
+    S + '__contains__': ['Store.dhas'],
+    S + '__getitem__': ['Store.readField', 'Store.viewCont'],
+    S + '__setitem__': ['Store.setItemCol', 'Store.tableOp', 'Store.stepX'],
+    S + '__len__': ['Store.Cont'],
+    S + 'field_name_list': ['Store.namesUpd'],
+    S + 'indices': ['Store.idxUpd'],
+    S + 'append': ['Store.appendCol', 'Store.npAppend', 'Store.promote', 'Store.tableOp'],
+    S + 'append_field': ['Store.tableOp', 'Store.bindNew'],
+    S + 'as_numpy_record_array': ['Store.asRecord', 'Store.recordCol'],
+    S + 'copy': ['Store.copyCols', 'Store.ctorTable'],
+    S + 'remove_field': ['Store.dpop', 'Store.tableOp'],
+    S + 'set_field_dtype': ['Store.setDtypeCol', 'Store.castCol'],
+    S + 'convert_dtypes': ['Store.convertCol', 'Store.castCol'],
+    S + 'get_selection': ['Store.selColE', 'Store.selCol', 'Store.selPositions', 'Store.gatherE'],
+    S + 'set_selection': ['Store.srcCol', 'Store.putCol', 'Store.putSel', 'Store.scatter', 'Store.roBlocked', 'Store.stepXR'],
+    S + 'rename_fields': ['Store.renameLoop'],
+    S + 'tidy_up': ['Store.tableOp'],
+    S + 'sort_by_field': ['Store.sortCol', 'Store.isPerm', 'Store.nondecr'],
+}
+
+
+def generated(ctx):
+    """signature defaults of the constructor / copy / rename_fields and the keyword sets of the two internal constructor calls,
+    read from the current source (Props/C16.lean: c16_ctor_defaults_for_current_source)"""
+    return r7.generated_text(ctx)
 
 DTS = ['b', 'i16', 'i64', 'f32', 'f64']
 
@@ -107,7 +140,7 @@ def gen_sequence(rng, length):
         if not ref_legal(tabs, op):
             return
         ops.append(op)
-        sf.ref_apply(tabs, op)
+        r7.ref_apply(tabs, op)
 
     while not tabs:
         emit(gen_new(rng))          # (a constructor call with unequal lengths raises and creates nothing)
@@ -135,8 +168,8 @@ def gen_sequence(rng, length):
         newname = lambda: rng.choice(have if (bad and have) or not other else other)   # noqa: E731
         k = rng.choice(['append', 'append', 'appendField', 'setItem', 'setItem', 'removeField', 'rename', 'rename',
                         'tidyUp', 'getSel', 'getSel', 'setSel', 'setSel', 'sortBy', 'sortBy', 'copy', 'setDtype',
-                        'convert', 'indices', 'indices', 'new', 'appendFieldFrom', 'setItemFrom', 'setItemFrom', 'newShared', 'freeze', 'poke', 'poke'])
-        if k in ('getSel', 'copy', 'new', 'newShared') and len(tabs) >= 6:
+                        'convert', 'indices', 'indices', 'new', 'ctor', 'ctor', 'appendFieldFrom', 'setItemFrom', 'setItemFrom', 'newShared', 'freeze', 'poke', 'poke'])
+        if k in ('getSel', 'copy', 'new', 'newShared', 'ctor') and len(tabs) >= 6:
             k = 'indices'
         if k == 'append':
             # partners having all fields of t (unless a bad one is wanted); bounded growth
@@ -204,6 +237,9 @@ def gen_sequence(rng, length):
             emit({'op': 'indices', 'c': c})
         elif k == 'new':
             emit(gen_new(rng))
+        elif k == 'ctor':
+            # the constructor with its options on a live container (copy=False: the new table holds the same arrays)
+            emit(r7.gen_ctor_op(rng, c, have))
         elif k in ('appendFieldFrom', 'setItemFrom'):
             # the handed-in array IS a column of the same table or of another live table (same length preferred)
             cand = [(i, UNIVERSE.index(nm)) for i, d in enumerate(tabs) for nm in d.names if bad or d.n == t.n]
@@ -269,6 +305,8 @@ EXH_FULL = EXH_ALPHABET + [
     {'op': 'rename', 'c': 0, 'convs': [[0, 5], [1, 4]], 'must': False},  # ra -> true_ra, dec -> sin_dec
     {'op': 'tidyUp', 'c': 0, 'keep': [1, 0], 'form': 'tuple'},
     {'op': 'rename', 'c': 0, 'convs': [[0, 2], [2, 3]], 'must': False},  # a chain in one dict (ra -> time, time -> run): not chained
+    # the constructor with options on the live table: 'ra' is the same array object in both, 'dec' converted (fresh), others dropped
+    {'op': 'ctor', 'd': 0, 'keep': [1, 0], 'keep_form': 'tuple', 'convs': [['f32', 'f64'], ['b', 'i16']], 'exc': None, 'exc_form': None, 'copy': False},
 ]
 # a second start: three rows with a bool and a float64 column, and an empty partner
 EXH_INIT_B = [
@@ -291,7 +329,7 @@ def _bytes(arr):
     return (str(arr.dtype), arr.shape, np.ascontiguousarray(arr).tobytes())
 
 
-STRUCTURAL = ('new', 'getSel', 'copy', 'newShared', 'poke')
+STRUCTURAL = ('new', 'getSel', 'copy', 'newShared', 'poke', 'ctor')
 
 
 def table_check(case):
@@ -316,10 +354,10 @@ def table_check(case):
                 nm_ = UNIVERSE[op['m']]
                 blocked = nm_ in tabs[op['d']].names and tabs[op['d']].cells[nm_].ro
                 tgt_arrays = [conts[op['d']][nm_]] if nm_ in conts[op['d']] else []
-            ri = sf.impl_apply(conts, op, held)
+            ri = r7.impl_apply(conts, op, held)
             impl_perm = ri[1][1] if (op['op'] == 'sortBy' and ri[0] == 'ok') else None
-            rr = sf.ref_apply(tabs, op, impl_out=impl_perm)
-            rw = sf.row_apply(rows, op, impl_out=impl_perm, blocked=blocked, impl_ok=(ri[0] == 'ok'))
+            rr = r7.ref_apply(tabs, op, impl_out=impl_perm)
+            rw = r7.row_apply(rows, op, impl_out=impl_perm, blocked=blocked, impl_ok=(ri[0] == 'ok'))
             if op['op'] == 'setSel' and rr[0] == 'ok':
                 for ci in sf.written_shared(tabs, op['c']):
                     rows[ci] = None      # the row store has value semantics: these tables are no longer comparable
@@ -333,7 +371,7 @@ def table_check(case):
                 return None
             raise
         name = op['op']
-        where = 'step %d (%s)' % (k, sf.op_line(op, impl_perm))
+        where = 'step %d (%s)' % (k, r7.op_line(op, impl_perm))
         # every other table and every caller-held array is byte-identical unless the operation writes through
         for what, arr, b in before:
             if _bytes(arr) != b:
@@ -401,7 +439,7 @@ def shrink(case, mode):
         cand = ops[:i] + ops[i + 1:]
         # removing a container-creating op shifts the ids of later containers: only try when nothing refers past it
         rr = None
-        if ops[i]['op'] not in ('new', 'getSel', 'copy'):
+        if ops[i]['op'] not in ('new', 'getSel', 'copy', 'ctor'):
             rr = table_check({'ops': cand})
         if rr is not None and rr[0] == mode:
             ops = cand
@@ -419,11 +457,31 @@ def corr_prepare(ops):
         op = resolve(op, len(conts))
         if not sf.legal(conts, op):
             break
-        ri = sf.impl_apply(conts, op)
+        ri = r7.impl_apply(conts, op)
         perm = ri[1][1] if (op['op'] == 'sortBy' and ri[0] == 'ok') else None
-        lines.append(sf.op_line(op, perm))
+        lines.append(r7.op_line(op, perm))
         recs.append((op, ri, [sf.snap(a) for a in conts], sf.sharing(conts)))
     return lines, recs
+
+
+def corr_prepare_rec(ops):
+    """corr_prepare + at the end of the history one read-only `record i` request per container
+    (as_numpy_record_array vs. asRecord of the heap model); returns (lines, recs, [implementation's record arrays])"""
+    conts, lines, recs = [], ['reset'], []
+    for op in ops:
+        op = resolve(op, len(conts))
+        if not sf.legal(conts, op):
+            break
+        ri = r7.impl_apply(conts, op)
+        perm = ri[1][1] if (op['op'] == 'sortBy' and ri[0] == 'ok') else None
+        lines.append(r7.op_line(op, perm))
+        recs.append((op, ri, [sf.snap(a) for a in conts], sf.sharing(conts)))
+    rec_impl = []
+    for ci, a in enumerate(conts):
+        if all(n in a for n in a.field_name_list):
+            lines.append('record %d' % ci)
+            rec_impl.append(r7.record_snap(a))
+    return lines, recs, rec_impl
 
 
 def corr_eval(lines, recs, out):
@@ -442,6 +500,7 @@ def corr_sequence(ctx, ops):
 
 
 DIAG = {'less_sharing_than_model': 0, 'double_fault_other_exception': 0}
+ACC_BAD = []      # exhaustive nodes at which a read-only accessor (str, as_numpy_record_array, ...) misbehaved
 
 
 def _pairs(groups):
@@ -482,7 +541,7 @@ def compare_step(op, ri, snaps, share, ans, taint=None):
                 if ci == op['d'] and nm == UNIVERSE[op['m']] and len(byloc[loc]) > 1:
                     taint.update(x[0] for x in byloc[loc])
         if dirty_in:
-            if k in ('getSel', 'copy', 'newShared'):
+            if k in ('getSel', 'copy', 'newShared', 'ctor'):
                 taint.add(len(hs) - 1)
             elif k not in ('indices',):
                 taint.add(op['c'])
@@ -518,7 +577,37 @@ def o_corr(ctx, case):
     return corr_sequence(ctx, case['ops'])
 
 
-ORACLES = {'table': o_table, 'corr': o_corr}
+def o_accessors(ctx, case):
+    r = r7.accessors_after_each_step(case['ops'], resolve)
+    return None if r is None else r[2]
+
+
+def shrink_accessors(case, mode):
+    r = r7.accessors_after_each_step(case['ops'], resolve)
+    if r is None:
+        return case
+    ops = list(case['ops'][:r[1] + 1])
+    i = len(ops) - 1
+    while i >= 0:
+        cand = ops[:i] + ops[i + 1:]
+        rr = r7.accessors_after_each_step(cand, resolve) if ops[i]['op'] not in ('new', 'getSel', 'copy', 'ctor') or i == len(ops) - 1 else None
+        if rr is not None and rr[0] == mode:
+            ops = cand
+        i -= 1
+    return {'ops': ops}
+
+
+def report_accessors(ctx, case, seen):
+    r = r7.accessors_after_each_step(case['ops'], resolve)
+    if r is None or r[0] in seen:
+        return
+    seen.add(r[0])
+    small = shrink_accessors(case, r[0])
+    r2 = r7.accessors_after_each_step(small['ops'], resolve) or r
+    ctx.violation('accessors', small, r2[2], signature='C16/accessors/%s' % r2[0])
+
+
+ORACLES = {'table': o_table, 'corr': o_corr, 'ctor': r7.o_ctor, 'ctor_corr': r7.o_ctor_corr, 'accessors': o_accessors}
 
 
 # ------------------------------------------------------------------------------------------
@@ -558,8 +647,8 @@ def _exh_chunk(ctx, depth, alphabet, first, init):
     lines = ['reset']
     nodes = []        # (path, op, ri, snaps, share) in the order of the op lines
     for op in init:
-        ri = sf.impl_apply(conts, op)
-        lines.append(sf.op_line(op))
+        ri = r7.impl_apply(conts, op)
+        lines.append(r7.op_line(op))
         nodes.append(((), op, ri, [sf.snap(a) for a in conts], sf.sharing(conts)))
 
     def rec(conts, path):
@@ -573,10 +662,19 @@ def _exh_chunk(ctx, depth, alphabet, first, init):
             if not sf.legal(cs, op):
                 ctx.count('exhaustive:skipped(set_selection source shares memory with target)')
                 continue
-            ri = sf.impl_apply(cs, op)
+            ri = r7.impl_apply(cs, op)
+            # (accessors at the nodes up to length 4 — all nodes of the quick tier; deeper nodes are covered by the random histories)
+            for ci_ in (set([len(cs) - 1] + ([op['c']] if isinstance(op.get('c'), int) and 0 <= op['c'] < len(cs) else []))
+                        if len(path) < 4 else ()):
+                ra = r7.accessor_check(cs[ci_])
+                if ra is not None:
+                    ACC_BAD.append((path + (ai,), alphabet, init))
+                    ctx.count('accessors:failed')
+                else:
+                    ctx.count('accessors:checked')
             perm = ri[1][1] if (op['op'] == 'sortBy' and ri[0] == 'ok') else None
             lines.append('push')
-            lines.append(sf.op_line(op, perm))
+            lines.append(r7.op_line(op, perm))
             p = path + (ai,)
             nodes.append((p, op, ri, [sf.snap(a) for a in cs], sf.sharing(cs)))
             if len(cs) <= 5:
@@ -629,11 +727,15 @@ def run(ctx):
                 'set_field_dtype, convert_dtypes, indices, constructor) on 1..6 containers with 0..50 rows, 1..5 fields of '
                 'bool/int16/int64/float32/float64; ~12% of the operations are invalid on purpose (missing field, wrong length, '
                 'bad index); append_field / __setitem__ / constructor(copy=False) also with an array that already is a column of the same or of '
-                'another live container or that the caller keeps. Bounded-exhaustive: all sequences over a 15-letter alphabet of concrete operations; random: '
+                'another live container or that the caller keeps; the constructor with its options (keep_fields, dtype_conversions, except fields, copy '
+                'given / omitted) on a dict (values of unequal lengths included), a structured ndarray, a live container (also inside histories); '
+                'str / as_numpy_record_array / get_field_dtype / sizeof on every container after every step. Bounded-exhaustive: all sequences over a 15-letter alphabet of concrete operations; random: '
                 'lengths up to 40. Distinct = distinct operation sequence.')
     ctx.trusted_base += ['correspondence harness harness/props/c16.py + harness/store_fixtures.py (exact comparison)',
                          'numpy fancy indexing / np.append promotion / astype as modelled in Model/Store.lean (compared on every run)',
-                         'values are small integers: value conversion between the five dtypes is the identity except towards bool']
+                         'values are small integers: value conversion between the five dtypes is the identity except towards bool',
+                         "np.can_cast(..., 'same_kind') on the five dtypes as tabulated in Model/StoreR7.lean sameKind (np.copyto in the constructor; compared on every run)",
+                         'harness/c16_r7_fixtures.py (constructor cases, ast extraction of defaults / cache writers, accessor oracle)']
     ctx.assumptions += ['the source of a set_selection does not share memory with its target (numpy read-after-write order is not modelled)',
                         'no NaN in sort keys; conversions dicts have distinct old names (a Python dict)']
     # ---- bounded-exhaustive histories
@@ -673,6 +775,11 @@ def run(ctx):
             continue
         seen.add(sig)
         report(ctx, case, d)
+    # ---- read-only accessors (str, as_numpy_record_array, get_field_dtype, sizeof) at the nodes of the enumeration
+    acc_seen = set()
+    for path, alph, init in sorted(ACC_BAD, key=lambda x: len(x[0]))[:50]:
+        report_accessors(ctx, path_case(path, alph, init), acc_seen)
+    del ACC_BAD[:]
     # ---- random sequences (correspondence + oracle)
     n_seq = ctx.n(150, 3000)
     disagreements = len(bad)
@@ -690,7 +797,9 @@ def run(ctx):
             small = shrink(case, r[0])
             r2 = table_check(small) or r
             ctx.violation('table', small, r2[3], signature='C16/%s/%s' % (r2[1], r2[0]))
-        lines, recs = corr_prepare(ops)
+        report_accessors(ctx, case, acc_seen)
+        ctx.count('accessors:random histories')
+        lines, recs, rec_impl = corr_prepare_rec(ops)
         for (op_, ri_, _, _) in recs:
             ctx.count('outcome:%s:%s' % (op_['op'], ri_[0] if ri_[0] == 'ok' else 'err-' + str(ri_[1])))
             if 'sel' in op_:
@@ -701,15 +810,33 @@ def run(ctx):
                 ctx.count('branch:handed-in array layout %s' % col_.get('layout', 'contiguous'))
             if op_['op'] == 'new':
                 ctx.count('branch:constructor copy=%s' % (not op_.get('nocopy')))
-        batch.append((case, r, lines, recs, len(all_lines)))
+        batch.append((case, r, lines, recs, len(all_lines), rec_impl))
         all_lines += lines
     out = ctx.driver('C16', all_lines)
-    for case, r, lines, recs, off in batch:
+    for case, r, lines, recs, off, rec_impl in batch:
         d = corr_eval(lines, recs, out[off:off + len(lines)])
+        if not d:
+            drec = None
+            for impl_rec, ans in zip(rec_impl, out[off + len(lines) - len(rec_impl):off + len(lines)]):
+                ctx.count('outcome:record:%s' % impl_rec[0])
+                drec = drec or r7.record_compare(impl_rec, ans)
+            if drec:
+                # as_numpy_record_array disagrees with asRecord: the accessor oracle names the failing input
+                disagreements += 1
+                if r7.accessors_after_each_step(case['ops'], resolve) is not None:
+                    report_accessors(ctx, case, acc_seen)
+                elif 'record' not in acc_seen:
+                    acc_seen.add('record')
+                    ctx.violation('corr', case, 'model and implementation disagree (%s) but the accessor oracle is silent' % drec,
+                                  kind='correspondence', relation='exact: fields, dtypes, values, length of the record array',
+                                  signature='C16/corr/record', no_failing_input=True)
         if d:
             disagreements += 1
             if r is None:
                 report(ctx, case, d)
+    # ---- round 7: the constructor with its options (keep_fields, dtype_conversions, except fields, copy) on dict /
+    #      structured ndarray / DataFieldRecordArray input, against Model/StoreR7.lean (ctorLoop) and the plain-table oracle
+    disagreements += r7.run_ctor(ctx, ctx.n(600, 12000))
     ctx.extra['correspondence_disagreements'] = disagreements
     # every outcome class of every modelled operation: an un-hit branch of the model is an untied branch
     expected = {
@@ -718,7 +845,7 @@ def run(ctx):
         'getSel': ['ok', 'err-idxval'], 'setSel': ['ok', 'err-key', 'err-idxval'], 'sortBy': ['ok', 'err-key'], 'copy': ['ok'],
         'setDtype': ['ok', 'err-key'], 'convert': ['ok'], 'indices': ['ok'], 'appendFieldFrom': ['ok', 'err-key', 'err-value'],
         'setItemFrom': ['ok', 'err-key', 'err-value'], 'newShared': ['ok', 'err-key'], 'freeze': ['ok', 'err-key'],
-        'poke': ['ok', 'err-key', 'err-index', 'err-value']}
+        'poke': ['ok', 'err-key', 'err-index', 'err-value'], 'ctor': ['ok', 'err-type']}
     ctx.extra['zero_hit_branches'] = ['%s:%s' % (o, r_) for o, rs in expected.items() for r_ in rs
                                       if ctx.counters.get('outcome:%s:%s' % (o, r_), 0) == 0]
     ctx.extra['diagnostics'] = dict(DIAG)
@@ -733,7 +860,11 @@ MANIFEST = dict(
           'set_selection leaves all existing arrays untouched (c16_rebind_ops_frame) and, without write-through, the plain tables are still '
           'refined (c16_refines_shared). Row-level theorems independent of the bookkeeping: sorting permutes rows (c16_sort_rows, c16_isPerm_perm), selections gather rows, append concatenates rows, set_selection replaces exactly the selected rows in every column, copy equals its origin, rename keeps all columns; pre-fix sequential executors with proved counterexamples. The executable model is compared after every step with the real container (public accessors + '
           'np.shares_memory) on bounded-exhaustive and random operation sequences; a numpy-structured-array reference table is the '
-          'failing-input oracle.'),
+          'failing-input oracle. Round 7: the field loop of the constructor with keep_fields / dtype_conversions / except fields / copy as coded '
+          '(ctorLoop): result = copy(keep) then convert_dtypes, well formed, provenance (c16_ctor_spec, c16_ctor_wf, c16_ctor_prov, '
+          'c16_ctor_no_error), as an operation of a history (c16_ctor_op_refines, c16_ctor_op_frame), as_numpy_record_array = the plain table '
+          '(c16_record_array_is_table); signature defaults and the per-method writers of the four state attributes are regenerated from the '
+          'ast of the current source (c16_*_for_current_source).'),
     note=('Values are small integers (dtype conversion modelled only as far as which column gets which dtype); set_selection whose source shares '
           'memory with its target is outside the model; numpy primitives (fancy indexing, np.append promotion, argsort) are modelled and compared, not verified.'),
     design='DESIGN.md section 4 C16',
